@@ -302,7 +302,7 @@ func init() {
 		sort.Strings(names)
 		out := []Value{}
 		for _, n := range names {
-			out = append(out, it.fileInfo(n, it.fsLookup(n)))
+			out = append(out, it.fileInfo(n, it.fsLookupL(n, false))) // like lstat: a link is reported as a link
 		}
 		return Tuple{out, Iface{}}
 	}
